@@ -541,3 +541,6 @@ func Range(lo, hi int64) []int64 {
 	}
 	return out
 }
+
+// Topo returns the blocks of a loop-free function in topological order.
+func Topo(fn *ssa.Function) ([]*ssa.BasicBlock, error) { return topo(fn) }
